@@ -1,5 +1,5 @@
 import TantivyModel.Driver.Proto
-import TantivyModel.Model.CommitProtocol
+import TantivyModel.Proofs.CommitProtocol
 /-!
 Line protocol of the C01 model.
 
@@ -124,6 +124,16 @@ def handle : List String → String
   | "images" :: ks :: toks =>
     match natList ks, toks.mapM parseTok with
     | some ks, some ts => joinOr "#" (imagesAt ks initState ts 0 [])
+    | _, _ => "bad-op"
+  | "verdict" :: base :: toks =>
+    -- the two hypotheses of `C01_run_verdict_is_hypothesis`, decided on a real log:
+    -- invB of the state after the first `base` tokens, Disciplined of the rest from there
+    match base.toNat?, toks.mapM parseTok with
+    | some k, some ts =>
+      let ops := ts.filterMap (fun t => match t with | .op o => some o | _ => none)
+      let nPre := ((ts.take k).filterMap (fun t => match t with | .op o => some o | _ => none)).length
+      let s := initState.run (ops.take nPre)
+      "inv=" ++ showBool (invB s) ++ " disc=" ++ showBool (Disciplined s (ops.drop nPre))
     | _, _ => "bad-op"
   | ["names"] =>
     ";".intercalate ([Gen.META_NAME, Gen.MANAGED_NAME, Gen.INDEX_WRITER_LOCK_NAME, Gen.META_LOCK_NAME, Gen.DELETE_SUFFIX]
